@@ -55,6 +55,14 @@ def rand_spec(rng):
 
 def gen(ctx):
     rng = ctx.rng
+    # a well-formed message at the head of a buffer around and beyond 64 KiB (length arithmetic must not be done in 16 bits)
+    import struct as _st
+    for msg in (W.enc_ready(7), W.enc_measure(3, 9, [1, 2, 3]), W.enc_create(1, 2, 3, 4, 5, 6, 7, b"reno"),
+                _st.pack("<HHI", 0x23, 40000, 1) + bytes(39992)):
+        for total in (65535, 65536, 65537, 65536 + len(msg) - 1, 65536 + len(msg), 131072, 131072 + 5, 200000):
+            if total >= len(msg):
+                yield Case("DEC", W.hx(msg + bytes(total - len(msg))), tags=("bigbuf",))
+        yield Case("DECS", W.hx(msg * 3 + bytes(65536) + msg), tags=("bigbuf",))
     for n in range(0, 65):
         for _ in range(3 if ctx.thorough else 1):
             yield Case("RT", spec_cr(rng, W.rname(rng, n)), tags=("name-len",))
